@@ -88,6 +88,9 @@ def c09(quick):
             for bs in ((1, 2) if quick else (1, 2, 3)):
                 S.append((D(mode=mode, nj=2, pre=pre, bs=bs, calls=[dict(n=14)]), "random", rnd))
         S.append((D(mode=mode, nj=3, pre="2*n_jobs", bs="auto", bsizes=[1, 2, 4], calls=[dict(n=30)]), "random", rnd))
+        # fewer pre-dispatched tasks than workers (the user asked for LESS look-ahead than one task per worker)
+        for nj, pre in ((2, 1), (3, 1), (3, 2), (4, "0.5*n_jobs")):
+            S.append((D(mode=mode, nj=nj, pre=pre, bs=1, calls=[dict(n=7)]), "random", max(30, rnd // 4)))
         S.append((D(mode=mode, nj=2, pre="all", bs=1, calls=[dict(n=6)]), "dfs", lim))
         S.append((D(mode=mode, nj=2, pre="all", bs=2, calls=[dict(n=9)]), "random", rnd))
         S.append((D(mode=mode, nj=2, pre=4, bs=1, calls=[dict(n=5)]), "dfs", lim))
